@@ -7,6 +7,7 @@ package main
 // first kin-openapi function on its stack the signature.
 
 import (
+	"net/url"
 	"syscall"
 	"bytes"
 	"context"
@@ -249,7 +250,9 @@ func c10Random(r *Rng) C10Case {
 			"additionalProperties", jobj("type", "object", "properties", jobj("k", jobj("type", "string"), "zz", jobj("type", "string")))),
 		"RAny", jobj("anyOf", []any{jref("schemas", "RAny"), jobj("type", "string")}),
 		"RAll", jobj("allOf", []any{jobj("type", "string"), jref("schemas", "RAll")}),
-		"ROne", jobj("oneOf", []any{jobj("type", "integer"), jref("schemas", "ROne")})))
+		"ROne", jobj("oneOf", []any{jobj("type", "integer"), jref("schemas", "ROne")}),
+		// several types, not in alphabetical order: the order is part of the document (parameters are read as the first type that parses)
+		"MT", jobj("type", []any{"string", "integer"}, "minimum", 10.0)))
 	paths := map[string]any{}
 	var templates []string
 	methodsOf := map[string][]string{}
@@ -273,7 +276,7 @@ func c10Random(r *Rng) C10Case {
 			cell := Pick(r, c10Cells[4:])
 			p := jobj("name", Pick(r, []string{"q", "id", "X-H", "f", "a b", "q[x]"}), "in", cell[0], "required", r.Chance(30))
 			if r.Chance(80) {
-				p["style"], p["explode"], p["schema"] = cell[1], cell[2], Pick(r, []any{c10Schema(r, 2), jref("schemas", "S"), jref("schemas", "Rec")})
+				p["style"], p["explode"], p["schema"] = cell[1], cell[2], Pick(r, []any{c10Schema(r, 2), jref("schemas", "S"), jref("schemas", "Rec"), jref("schemas", "MT")})
 			} else {
 				p["content"] = jobj("application/json", jobj("schema", c10Schema(r, 1)))
 				if r.Chance(25) {
@@ -286,7 +289,8 @@ func c10Random(r *Rng) C10Case {
 			}
 			if r.Chance(25) {
 				// a deepObject parameter whose members are arrays and nested objects
-				p = jobj("name", Pick(r, []string{"q", "id", "f", "a b"}), "in", "query", "style", "deepObject", "explode", true, "required", r.Chance(30),
+				// (names with characters that mean something in a regular expression included)
+				p = jobj("name", Pick(r, []string{"q", "id", "f", "a b", "ids[]", "*opts", "a(b", "x+", "f[", "$filter", "a.b", "q\\"}), "in", "query", "style", "deepObject", "explode", true, "required", r.Chance(30),
 					"schema", jobj("type", "object", "properties", jobj(
 						"ids", jobj("type", "array", "items", jobj("type", "integer")),
 						"a", jobj("type", "object", "properties", jobj("b", jobj("type", "string"))),
@@ -334,7 +338,7 @@ func c10Random(r *Rng) C10Case {
 				content := map[string]any{}
 				for k := 0; k < 1+r.Intn(2); k++ {
 					ct := Pick(r, []string{"application/json", "text/plain", "application/x-www-form-urlencoded", "multipart/form-data", "application/octet-stream", "application/problem+json", "*/*", "text/csv", "application/zip", "application/x-yaml"})
-					mt := jobj("schema", Pick(r, []any{c10Schema(r, 2), jref("schemas", "Rec"), jref("schemas", "D"), jref("schemas", "M"), jobj("type", "object", "properties", jobj("a", c10Schema(r, 1), "f", jobj("type", "string", "format", "binary")))}))
+					mt := jobj("schema", Pick(r, []any{c10Schema(r, 2), jref("schemas", "Rec"), jref("schemas", "D"), jref("schemas", "M"), jref("schemas", "MT"), jobj("type", "object", "properties", jobj("a", c10Schema(r, 1), "f", jobj("type", "string", "format", "binary")))}))
 					if ct == "multipart/form-data" && r.Chance(50) {
 						mt = jobj("schema", jref("schemas", "M"))
 					}
@@ -385,14 +389,16 @@ func c10Random(r *Rng) C10Case {
 	c := C10Case{Doc: doc}
 	// traffic
 	seg := []string{"1", "abc", "", "%2F", "%", "%zz", "a,b", ".x.y", ";p0=1", ";p0=1;p0=2", "a=1,b=2", "é", "..", "{p0}", "1e400", "NaN", "-0", strings.Repeat("9", 40), "null", "true", "[1]", "{\"a\":1}"}
-	bodies := []string{"", "{}", "[]", "null", "1", "\"s\"", "{\"a\":", "{\"next\":{\"next\":{\"next\":null}}}", "{\"a\":1e400}", "a=1&b=2", "a=%zz", "plain", "\x00\xff",
+	bodies := []string{"", "{}", "[]", "null", "1", "true", "\"s\"", "{\"a\":", "{\"next\":{\"next\":{\"next\":null}}}", "{\"a\":1e400}", "a=1&b=2", "a=%zz", "plain", "\x00\xff",
 		"--b\r\nContent-Disposition: form-data; name=\"a\"\r\n\r\n1\r\n--b--\r\n",
 		"--b\r\nContent-Disposition: form-data; name=\"a\"\r\nContent-Type: application/json\r\n\r\n{\"a\":\r\n--b--\r\n",
 		"--b\r\nContent-Disposition: form-data; name=\"a\"\r\nContent-Type: text/plain\r\n\r\nx\r\n--b\r\nContent-Disposition: form-data; name=\"f\"; filename=\"f\"\r\nContent-Type: application/json\r\n\r\n[1,\r\n--b--\r\n",
 		"--b\r\nContent-Disposition: form-data; name=\"zz\"\r\nContent-Type: application/x-yaml\r\n\r\na: [\r\n--b--\r\n", "{\"a\":NaN}", "[[[[[[[[[[]]]]]]]]]]", "{\"v\":{\"v\":1}}", "<x/>", "a: 1\nb: [", strings.Repeat("[", 2000),
 		"1: x\ntrue: y\n", "a:\n  2: z\n  ~: w\n", "- 1\n- {3: 4}\n", "? [1, 2]\n: v\n"}
 	cts := []string{"", "application/json", "application/json; charset=utf-8", "text/plain", "application/x-www-form-urlencoded", "multipart/form-data; boundary=b", "multipart/form-data",
-		"application/octet-stream", ";", "a/b/c", "application/problem+json", "APPLICATION/JSON", "text/csv", "application/zip", "application/x-yaml", "application/json;;", "application/json; charset"}
+		"application/octet-stream", ";", "a/b/c", "application/problem+json", "APPLICATION/JSON", "text/csv", "application/zip", "application/x-yaml", "application/json;;", "application/json; charset",
+		// no '/' in the type part, one inside the parameters; a bare type; parameters only
+		"json; profile=\"http://example.com/p\"", "multipart; boundary=a/b", "text;encoding=utf-8/16", "json", "/", "/json", "application/", "; a=b/c"}
 	for i := 0; i < 8; i++ {
 		tpl := "/nowhere"
 		if len(templates) > 0 && r.Chance(85) {
@@ -404,7 +410,10 @@ func c10Random(r *Rng) C10Case {
 		}
 		if r.Chance(12) {
 			// one key both as a scalar and as a nested object (deepObject parameters)
-			n := Pick(r, []string{"q", "id", "f", "a b"})
+			n := Pick(r, []string{"q", "id", "f", "a b", "ids[]", "*opts", "a(b", "$filter"})
+			if strings.ContainsAny(n, "[]*($") {
+				n = url.QueryEscape(n)
+			}
 			target += "?" + Pick(r, []string{
 				n + "[a]=1&" + n + "[a][b]=2&" + n + "[c][0]=x&" + n + "[c]=y",
 				n + "[ids][-1]=3&" + n + "[ids][0]=1", n + "[ids][5]=3", n + "[ids][99999999999999999999]=1", n + "[ids][x]=1&" + n + "[ids][1]=2",
